@@ -4,6 +4,12 @@ spec/ctfe/CTFE.tla (AddChain over the de-duplicating backend; invariants DupStab
 behaviours (fresh and repeated submissions interleaved with clock ticks, sequencing and reads) replayed into a real
 ctfe.Instance; the QueueLeafRequest seen by the backend, the SCT (id, timestamp, signature) and the RequestLog calls
 are compared with the specification and with independent encodings / std crypto.
+
+Histories, clocks, faults: the log is served by two front end instances over one backend (same key), each with its own
+clock that the specification sets to any value (ClockSet: forward, backward, behind / ahead of the other instance), so
+a duplicate reaches a front end whose clock reads earlier than, equal to or later than the stored timestamp
+(DupIgnoresClock, StoredNeverRestamped); a submission can fail at the signer, at a backend that refuses the call, or
+after the backend stored the leaf (lost reply), and is then retried through either instance (SCTOnlyOn200).
 """
 import json
 
